@@ -252,7 +252,10 @@ def run_case(sh, i, plan):
         # bytes-like T carried verbatim
         if i % 4 == 0:
             for T, mk in ((bytes, bytes), (bytearray, bytearray), (memoryview, memoryview)):
-                raw = rng.choice([b"", b"abc", b"\xff\xfe\x00", b'{"a": 1}', b"[1,2", "é".encode(), bytes(range(256))])
+                raw = rng.choice([b"", b"abc", b"\xff\xfe\x00", b'{"a": 1}', b"[1,2", "é".encode(), bytes(range(256)),
+                                  # payloads a "helpful" decoder might trim: byte-order marks, their single bytes, whitespace, NULs
+                                  b"\xef\xbb\xbfpayload", b"\xbfQue?", b"\xbb\xbb\xef", b"\xff\xfeab", b" x ", b"\n", b"\x00abc\x00", b"\r\n[1]\r\n",
+                                  bytes(rng.randrange(256) for _ in range(rng.randrange(1, 12))), bytes([rng.choice([0xEF, 0xBB, 0xBF, 0x20, 0x00, 0xFF])]) * rng.randrange(1, 4) + b"z"])
                 v = mk(raw)
                 sh.count("bytes_types_checked")
                 try:
